@@ -269,3 +269,437 @@ Proof.
   - f_equal. rewrite (trunc_tables_back (mlen (w_buf w)) w); auto.
     unfold set_buf; cbn [w_buf w_shim]. rewrite (Sh eq_refl). apply ws_eta.
 Qed.
+
+Lemma append_slice_shim c s w :
+  t_stream c = false ->
+  match append_slice c s w with WOk w' | WErr w' => w_shim w' = w_shim w | _ => True end.
+Proof.
+  intros St. unfold append_slice. rewrite St. destruct (negb _); reflexivity.
+Qed.
+Lemma label_compose_shim c l w :
+  t_stream c = false ->
+  match label_compose c l w with WOk w' | WErr w' => w_shim w' = w_shim w | _ => True end.
+Proof.
+  intros St. unfold label_compose.
+  pose proof (append_slice_shim c [N.of_nat (length l)] w St) as H1.
+  destruct (append_slice c [N.of_nat (length l)] w) as [w1|w1| |]; cbn [wbind]; auto.
+  pose proof (append_slice_shim c l w1 St) as H2.
+  destruct (append_slice c l w1); auto; congruence.
+Qed.
+
+(* ------------------------------------------------------------ compressors *)
+
+Lemma label_compose_sinv c l w w' : label_compose c l w = WOk w' -> SInv c w'.
+Proof.
+  unfold label_compose. intros H St.
+  destruct (append_slice c [N.of_nat (length l)] w) as [w1|w1| |]; cbn [wbind] in H; try discriminate.
+  eapply append_slice_sinv; eauto.
+Qed.
+
+(* one round of the Static/Tree loop: an entry for the current position is
+   added to one table, then the label is written *)
+Lemma insert_then_label c l w w0 (rest : ws -> wres) :
+  TBound w -> SInv c w -> mlen (w_buf w) < 16384 ->
+  w_buf w0 = w_buf w -> w_shim w0 = w_shim w ->
+  Ext c (mlen (w_buf w)) w w0 ->
+  (forall b, mlen (w_buf w) < mlen b -> TBound (set_buf w0 b)) ->
+  WSpec c rest ->
+  match wbind (label_compose c l w0) rest with
+  | WOk w' => Ext c (mlen (w_buf w)) w w' /\ TBound w' /\ SInv c w'
+  | WErr w' => Ext c (mlen (w_buf w)) w w'
+  | _ => True
+  end.
+Proof.
+  intros TB SI Hlt Hb Hs E0 TB0 Hrest.
+  pose proof (label_compose_tables c l w0) as HT.
+  destruct (label_compose c l w0) as [w1|w1| |] eqn:EL; cbn [wbind]; auto.
+  - destruct HT as ((a1 & a2 & a3) & sfx & B).
+    pose proof (label_compose_grows _ _ _ _ EL) as Hg. rewrite Hb in Hg.
+    assert (E1 : Ext c (mlen (w_buf w0)) w0 w1).
+    { split; [exists sfx; exact B | exists []; rewrite app_nil_r; auto | exists []; auto
+             | exists []; rewrite app_nil_r; auto |].
+      intros St. pose proof (label_compose_shim c l w0 St) as Hs'. rewrite EL in Hs'. exact Hs'. }
+    assert (E01 : Ext c (mlen (w_buf w)) w w1) by (eapply Ext_trans; [exact E0|exact E1|rewrite Hb; lia]).
+    assert (TB1 : TBound w1).
+    { specialize (TB0 (w_buf w1) Hg). unfold TBound in *. unfold set_buf in TB0; cbn [w_buf w_static w_tree w_hash] in TB0.
+      rewrite a1, a2, a3. exact TB0. }
+    assert (SI1 : SInv c w1) by (eapply label_compose_sinv; eauto).
+    specialize (Hrest w1 TB1 SI1). pose proof (Ext_mlen _ _ _ _ E01) as Hm.
+    destruct (rest w1) as [w2|w2| |]; auto.
+    + destruct Hrest as (E2 & TB2 & SI2). split; [|split]; auto. eapply Ext_trans; eauto.
+    + eapply Ext_trans; eauto.
+  - destruct HT as ((a1 & a2 & a3) & sfx & B).
+    apply (Ext_trans c _ (mlen (w_buf w0)) w w0 w1); [exact E0| |rewrite Hb; lia].
+    split; [exists sfx; exact B | exists []; rewrite app_nil_r; auto | exists []; auto
+           | exists []; rewrite app_nil_r; auto |].
+    intros St. pose proof (label_compose_shim c l w0 St) as Hs'. rewrite EL in Hs'. exact Hs'.
+Qed.
+
+Lemma static_acn_spec c ls : WSpec c (static_acn c ls).
+Proof.
+  induction ls as [|l rest IH]; intros w TB SI; cbn [static_acn].
+  - apply write_root_spec; auto.
+  - destruct (static_get (w_buf w) (w_static w) (l :: rest)) as [[pos|]|]; [apply write_ptr_spec; auto| |exact I].
+    destruct (static_insert (mlen (w_buf w)) (w_static w)) as [es'|] eqn:EI.
+    + unfold static_insert in EI.
+      destruct ((mlen (w_buf w) <? static_ptr_limit) && _) eqn:G; [|discriminate]. injection EI as <-.
+      apply andb_true_iff in G as [G1 _]. apply N.ltb_lt in G1. unfold static_ptr_limit in G1.
+      apply insert_then_label; auto.
+      * split; unfold set_static; cbn [w_buf w_static w_tree w_hash w_shim];
+          [exists []; rewrite app_nil_r; auto | | exists []; auto | exists []; rewrite app_nil_r; auto | auto].
+        exists [mlen (w_buf w)]. split; [reflexivity|]. constructor; [lia|constructor].
+      * intros b Hb. destruct TB as (A & B & C). unfold TBound, set_buf, set_static; cbn [w_buf w_static w_tree w_hash].
+        repeat split.
+        -- apply Forall_app; split; [eapply Forall_weaken; [|exact A]; cbv beta; intros; lia|].
+           constructor; [lia|constructor].
+        -- eapply Forall_weaken; [|exact B]; cbv beta; intros; lia.
+        -- eapply Forall_weaken; [|exact C]; cbv beta; intros; lia.
+    + apply (WSpec_bind c (write_labels c (l :: rest)) (write_root c)); auto using write_labels_spec, write_root_spec.
+Qed.
+
+Lemma labels_eqb_refl_bytes a : bytes_eqb a a = true.
+Proof. induction a as [|x a IH]; cbn [bytes_eqb]; [reflexivity|]. rewrite N.eqb_refl, IH. reflexivity. Qed.
+Lemma bytes_eqb_eq a b : bytes_eqb a b = true <-> a = b.
+Proof.
+  revert b; induction a as [|x a IH]; intros [|y b]; cbn [bytes_eqb]; split; intros H; try reflexivity; try discriminate.
+  - apply andb_true_iff in H as [H1 H2]. apply N.eqb_eq in H1. apply IH in H2. congruence.
+  - injection H as -> ->. rewrite N.eqb_refl. apply IH. reflexivity.
+Qed.
+Lemma labels_eqb_eq a b : labels_eqb a b = true <-> a = b.
+Proof.
+  revert b; induction a as [|x a IH]; intros [|y b]; cbn [labels_eqb]; split; intros H; try reflexivity; try discriminate.
+  - apply andb_true_iff in H as [H1 H2]. apply bytes_eqb_eq in H1. apply IH in H2. congruence.
+  - injection H as -> ->. apply andb_true_iff. split; [apply bytes_eqb_eq; reflexivity|apply IH; reflexivity].
+Qed.
+
+(* a key that is not bound is not removed by the filter of tree_insert *)
+Lemma tree_get_none_filter t k :
+  tree_get t k = None -> filter (fun e => negb (labels_eqb (fst e) k)) t = t.
+Proof.
+  induction t as [|[k' v] t IH]; cbn [tree_get filter fst]; [reflexivity|].
+  destruct (labels_eqb k' k); [discriminate|]. intros H. cbn [negb]. f_equal. apply IH. exact H.
+Qed.
+
+Lemma tree_acn_spec c ls : WSpec c (tree_acn c ls).
+Proof.
+  induction ls as [|l rest IH]; intros w TB SI; cbn [tree_acn].
+  - apply write_root_spec; auto.
+  - destruct (tree_get (w_tree w) (l :: rest)) as [pos|] eqn:EG; [apply write_ptr_spec; auto|].
+    destruct (tree_insert (l :: rest) (mlen (w_buf w)) (w_tree w)) as [t'|] eqn:EI.
+    + unfold tree_insert in EI.
+      destruct (N.leb_spec tree_ptr_limit (mlen (w_buf w))) as [G|G]; [discriminate|]. injection EI as <-.
+      unfold tree_ptr_limit in G. rewrite (tree_get_none_filter _ _ EG).
+      apply insert_then_label; auto.
+      * split; unfold set_tree; cbn [w_buf w_static w_tree w_hash w_shim];
+          [exists []; rewrite app_nil_r; auto | exists []; rewrite app_nil_r; auto | | exists []; rewrite app_nil_r; auto | auto].
+        exists [(l :: rest, mlen (w_buf w))]. split; [reflexivity|]. constructor; [cbn [snd]; lia|constructor].
+      * intros b Hb. destruct TB as (A & B & C). unfold TBound, set_buf, set_tree; cbn [w_buf w_static w_tree w_hash].
+        repeat split.
+        -- eapply Forall_weaken; [|exact A]; cbv beta; intros; lia.
+        -- constructor; [cbn [snd]; lia|]. eapply Forall_weaken; [|exact B]; cbv beta; intros; lia.
+        -- eapply Forall_weaken; [|exact C]; cbv beta; intros; lia.
+    + apply (WSpec_bind c (write_labels c (l :: rest)) (write_root c)); auto using write_labels_spec, write_root_spec.
+Qed.
+
+Lemma hash_write_spec c ls position : WSpec c (hash_write c ls position).
+Proof.
+  induction ls as [|l rest IH]; intros w TB SI; cbn [hash_write]; [apply WSpec_ok; auto|].
+  pose proof (label_compose_spec c l w TB SI) as HL.
+  pose proof (label_compose_tables c l w) as HT.
+  destruct (label_compose c l w) as [w1|w1| |] eqn:EL; cbn [wbind]; auto.
+  destruct HL as (E1 & TB1 & SI1). destruct HT as ((a1 & a2 & a3) & sfx & B).
+  pose proof (label_compose_grows _ _ _ _ EL) as Hg.
+  set (ent := (mlen (w_buf w), match rest with [] => position | _ :: _ => mlen (w_buf w) + (N.of_nat (length l) + 1) end)).
+  destruct (N.ltb_spec (mlen (w_buf w)) hash_ptr_limit) as [G|G].
+  - unfold hash_ptr_limit in G.
+    set (w2 := set_hash w1 (w_hash w1 ++ [ent])).
+    assert (E12 : Ext c (mlen (w_buf w)) w1 w2).
+    { split; subst w2; unfold set_hash; cbn [w_buf w_static w_tree w_hash w_shim];
+        [exists []; rewrite app_nil_r; auto | exists []; rewrite app_nil_r; auto | exists []; auto | | auto].
+      exists [ent]. split; [reflexivity|]. constructor; [subst ent; cbn [fst]; lia|constructor]. }
+    assert (TB2 : TBound w2).
+    { destruct TB1 as (A & Bt & C). subst w2. unfold TBound, set_hash; cbn [w_buf w_static w_tree w_hash].
+      split; [exact A|split; [exact Bt|]]. apply Forall_app; split; [exact C|].
+      constructor; [subst ent; cbn [fst]; lia|constructor]. }
+    assert (SI2 : SInv c w2) by exact SI1.
+    specialize (IH w2 TB2 SI2).
+    assert (E02 : Ext c (mlen (w_buf w)) w w2) by (eapply Ext_trans; [exact E1|exact E12|lia]).
+    assert (Hm : mlen (w_buf w) <= mlen (w_buf w2)) by (subst w2; unfold set_hash; cbn [w_buf]; lia).
+    destruct (hash_write c rest position w2) as [w3|w3| |]; auto.
+    + destruct IH as (E3 & TB3 & SI3). split; [|split]; auto. eapply Ext_trans; eauto.
+    + eapply Ext_trans; eauto.
+  - specialize (IH w1 TB1 SI1). pose proof (Ext_mlen _ _ _ _ E1) as Hm.
+    destruct (hash_write c rest position w1) as [w3|w3| |]; auto.
+    + destruct IH as (E3 & TB3 & SI3). split; [|split]; auto. eapply Ext_trans; eauto.
+    + eapply Ext_trans; eauto.
+Qed.
+
+Lemma hash_acn_spec c ls : WSpec c (hash_acn c ls).
+Proof.
+  intros w TB SI. unfold hash_acn.
+  destruct (hash_walk (w_buf w) (w_hash w) (rev ls) hash_root_pos) as [[position rest]| | |]; auto.
+  apply (WSpec_bind c (hash_write c (rev rest) position)
+           (fun w1 => if position =? hash_root_pos then write_root c w1 else write_ptr c hash_ptr_tag position w1)); auto.
+  - apply hash_write_spec.
+  - destruct (position =? hash_root_pos); [apply write_root_spec|apply write_ptr_spec].
+Qed.
+
+Lemma acn_spec c n : WSpec c (acn c n).
+Proof.
+  unfold acn. destruct (t_kind c);
+    [apply append_slice_spec|apply static_acn_spec|apply tree_acn_spec|apply hash_acn_spec].
+Qed.
+
+(* ------------------------------------------------------- questions, records *)
+
+Lemma compose_question_spec c q : WSpec c (compose_question c q).
+Proof.
+  unfold compose_question.
+  apply (WSpec_bind c (acn c (q_name q)) (fun w1 => wbind (append_slice c (be16 (q_type q)) w1) (append_slice c (be16 (q_class q))))).
+  - apply acn_spec.
+  - apply (WSpec_bind c (append_slice c _) (append_slice c _)); apply append_slice_spec.
+Qed.
+
+Lemma compose_items_spec c items : WSpec c (compose_items c items).
+Proof.
+  induction items as [|[b|n|n] r IH]; cbn [compose_items]; [apply WSpec_ok| | |].
+  - apply (WSpec_bind c (append_slice c b) (compose_items c r)); auto using append_slice_spec.
+  - apply (WSpec_bind c (acn c n) (compose_items c r)); auto using acn_spec.
+  - apply (WSpec_bind c (append_slice c _) (compose_items c r)); auto using append_slice_spec.
+Qed.
+
+Lemma be16_length v : length (be16 v) = 2%nat.
+Proof. reflexivity. Qed.
+
+Lemma patch16_app a r pos v :
+  mlen a <= pos -> pos + 2 <= mlen a + mlen r ->
+  patch16 pos v (a ++ r) = a ++ patch16 (pos - mlen a) v r.
+Proof.
+  intros H1 H2. unfold patch16, mlen in *.
+  rewrite firstn_app, skipn_app.
+  replace (N.to_nat pos - length a)%nat with (N.to_nat (pos - N.of_nat (length a))) by lia.
+  replace (N.to_nat pos + 2 - length a)%nat with (N.to_nat (pos - N.of_nat (length a)) + 2)%nat by lia.
+  rewrite (firstn_all2 a) by lia. rewrite (skipn_all2 a) by lia.
+  rewrite <- !app_assoc. reflexivity.
+Qed.
+
+Lemma patch16_mlen pos v b : pos + 2 <= mlen b -> mlen (patch16 pos v b) = mlen b.
+Proof.
+  intros H. unfold patch16, mlen in *. rewrite !app_length, firstn_length, skipn_length, be16_length. lia.
+Qed.
+
+(* overwriting two octets that were written after position p *)
+Lemma patch_spec c w w2 pos v :
+  TBound w2 -> SInv c w2 -> Ext c (mlen (w_buf w)) w w2 ->
+  mlen (w_buf w) <= pos -> pos + 2 <= mlen (w_buf w2) ->
+  let w3 := set_buf w2 (patch16 pos v (w_buf w2)) in
+  Ext c (mlen (w_buf w)) w w3 /\ TBound w3 /\ SInv c w3.
+Proof.
+  intros TB2 SI2 [[sfx B] ES ET EH Sh] H1 H2 w3. subst w3.
+  assert (L : mlen (patch16 pos v (w_buf w2)) = mlen (w_buf w2)) by (apply patch16_mlen; exact H2).
+  split; [|split].
+  - split; unfold set_buf; cbn [w_buf w_static w_tree w_hash w_shim]; auto.
+    rewrite B in *. rewrite mlen_app in H2. rewrite patch16_app by assumption. eexists; reflexivity.
+  - unfold TBound, set_buf in *; cbn [w_buf w_static w_tree w_hash]. rewrite L. exact TB2.
+  - intros St. unfold set_buf; cbn [w_buf w_shim]. rewrite L. apply SI2; exact St.
+Qed.
+
+Lemma compose_len_rdata_spec c r : WSpec c (compose_len_rdata c r).
+Proof.
+  intros w TB SI. unfold compose_len_rdata.
+  destruct (uses_prefix c r).
+  - pose proof (append_slice_spec c [0; 0] w TB SI) as H1.
+    destruct (append_slice c [0; 0] w) as [w1|w1| |] eqn:EA; cbn [wbind]; auto.
+    destruct H1 as (E1 & TB1 & SI1).
+    assert (L1 : mlen (w_buf w1) = mlen (w_buf w) + 2).
+    { unfold append_slice in EA. destruct (negb _); [discriminate|].
+      destruct (t_stream c); [destruct (_ <=? _); try discriminate|]; injection EA as <-;
+        unfold set_shim, set_buf; cbn [w_buf]; rewrite mlen_app; reflexivity. }
+    pose proof (compose_items_spec c (r_data r) w1 TB1 SI1) as H2.
+    destruct (compose_items c (r_data r) w1) as [w2|w2| |]; auto.
+    + destruct H2 as (E2 & TB2 & SI2).
+      destruct (_ <=? rdlen_max); [|exact I].
+      pose proof (Ext_mlen _ _ _ _ E2) as Hm.
+      apply patch_spec; auto; try lia. eapply Ext_trans; eauto. lia.
+    + rewrite (truncate_back c w1 w2); auto.
+  - destruct (rdlen_max <? _); [exact I|].
+    apply (WSpec_bind c (append_slice c _) (compose_items c (r_data r))); auto using append_slice_spec, compose_items_spec.
+Qed.
+
+Lemma compose_record_spec c r : WSpec c (compose_record c r).
+Proof.
+  unfold compose_record.
+  apply (WSpec_bind c (acn c (r_owner r))); [apply acn_spec|].
+  apply (WSpec_bind c (append_slice c _)); [apply append_slice_spec|].
+  apply (WSpec_bind c (append_slice c _)); [apply append_slice_spec|].
+  apply (WSpec_bind c (append_slice c _)); [apply append_slice_spec|].
+  apply compose_len_rdata_spec.
+Qed.
+
+Lemma compose_opts_spec c opts : WSpec c (compose_opts c opts).
+Proof.
+  induction opts as [|[[code dlen] data] r IH]; cbn [compose_opts]; [apply WSpec_ok|].
+  apply (WSpec_bind c (append_slice c _)); [apply append_slice_spec|].
+  apply (WSpec_bind c (append_slice c _)); [apply append_slice_spec|].
+  apply (WSpec_bind c (append_slice c _)); [apply append_slice_spec|exact IH].
+Qed.
+
+Lemma append_slice_mlen c s w w' : append_slice c s w = WOk w' -> mlen (w_buf w') = mlen (w_buf w) + mlen s.
+Proof.
+  unfold append_slice. intros EA. destruct (negb _); [discriminate|].
+  destruct (t_stream c); [destruct (_ <=? _); try discriminate|]; injection EA as <-;
+    unfold set_shim, set_buf; cbn [w_buf]; rewrite mlen_app; reflexivity.
+Qed.
+
+Lemma compose_opt_spec c udp opts : WSpec c (compose_opt c udp opts).
+Proof.
+  intros w TB SI. unfold compose_opt.
+  pose proof (append_slice_spec c opt_header_default w TB SI) as H1.
+  destruct (append_slice c opt_header_default w) as [w1|w1| |] eqn:EA; cbn [wbind]; auto.
+  destruct H1 as (E1 & TB1 & SI1). pose proof (append_slice_mlen _ _ _ _ EA) as L1.
+  pose proof (append_slice_spec c [0; 0] w1 TB1 SI1) as H2.
+  destruct (append_slice c [0; 0] w1) as [w2|w2| |] eqn:EB; cbn [wbind]; [| eapply Ext_trans; eauto; lia | exact I | exact I].
+  destruct H2 as (E2 & TB2 & SI2). pose proof (append_slice_mlen _ _ _ _ EB) as L2.
+  assert (E02 : Ext c (mlen (w_buf w)) w w2) by (eapply Ext_trans; eauto; lia).
+  change (mlen opt_header_default) with 9 in L1. change (mlen [0; 0]) with 2 in L2.
+  destruct (patch_spec c w w2 (mlen (w_buf w) + 3) udp TB2 SI2 E02) as (E3 & TB3 & SI3); [lia|lia|].
+  set (w3 := set_buf w2 (patch16 (mlen (w_buf w) + 3) udp (w_buf w2))) in *.
+  assert (L3 : mlen (w_buf w3) = mlen (w_buf w2)).
+  { subst w3. unfold set_buf; cbn [w_buf]. apply patch16_mlen. lia. }
+  (* truncating w4 back to pos = |w2| = |w3| gives w3 *)
+  pose proof (compose_opts_spec c opts w3 TB3 SI3) as H4.
+  destruct (compose_opts c opts w3) as [w4|w4| |]; auto.
+  - destruct H4 as (E4 & TB4 & SI4). pose proof (Ext_mlen _ _ _ _ E4) as Hm.
+    destruct (_ <=? rdlen_max).
+    + apply patch_spec; auto; try lia. eapply Ext_trans; eauto. lia.
+    + rewrite <- L3. rewrite (truncate_back c w3 w4); auto.
+  - rewrite <- L3. rewrite (truncate_back c w3 w4); auto.
+Qed.
+
+(* -------------------------------------------------------------- builders *)
+
+Lemma truncate_inv c len w :
+  TBound w -> SInv c w ->
+  exists w', truncate c len w = WOk w' /\ w_buf w' = firstn (N.to_nat len) (w_buf w) /\
+             TBound w' /\ SInv c w' /\ (t_stream c = false -> w_shim w' = w_shim w).
+Proof.
+  intros (A & B & C) SI.
+  set (b := firstn (N.to_nat len) (w_buf w)).
+  assert (Lb : mlen b <= mlen (w_buf w) /\ (mlen b = len \/ mlen b = mlen (w_buf w))).
+  { subst b. unfold mlen. rewrite firstn_length. lia. }
+  assert (TT : forall x, w_buf x = b -> w_static x = w_static w -> w_tree x = w_tree w -> w_hash x = w_hash w ->
+               TBound (trunc_tables len x) /\ w_buf (trunc_tables len x) = b /\ w_shim (trunc_tables len x) = w_shim x).
+  { intros x Hb Hs Ht Hh. unfold trunc_tables, TBound, set_static, set_tree, set_hash.
+    unfold static_trunc_guard, tree_trunc_guard, hash_trunc_guard.
+    destruct x as [xb xsh xs xt xh]. cbn [w_buf w_shim w_static w_tree w_hash] in *. subst xb xs xt xh.
+    assert (S1 : Forall (fun e => e < mlen b /\ e < 16384) (if len <? 49152 then take_while (fun e => e <? len) (w_static w) else w_static w)).
+    { destruct (N.ltb_spec len 49152) as [L|L].
+      - clear - A Lb. induction (w_static w) as [|e l IH]; cbn [take_while]; [constructor|].
+        inversion A as [|? ? [H1 H2] A']; subst. destruct (N.ltb_spec e len); [|constructor].
+        constructor; [lia|auto].
+      - eapply Forall_weaken; [|exact A]. cbv beta. intros; lia. }
+    assert (S2 : Forall (fun kv : name * N => snd kv < mlen b /\ snd kv < 16384) (if len <? 49152 then filter (fun kv => snd kv <? len) (w_tree w) else w_tree w)).
+    { destruct (N.ltb_spec len 49152) as [L|L].
+      - clear - B Lb. induction (w_tree w) as [|e l IH]; cbn [filter]; [constructor|].
+        inversion B as [|? ? [H1 H2] B']; subst. destruct (N.ltb_spec (snd e) len); [|auto].
+        constructor; [lia|auto].
+      - eapply Forall_weaken; [|exact B]. cbv beta. intros; lia. }
+    assert (S3 : Forall (fun e : N * N => fst e < mlen b /\ fst e < 16384) (if len <? 49152 then filter (fun e => fst e <? len) (w_hash w) else w_hash w)).
+    { destruct (N.ltb_spec len 49152) as [L|L].
+      - clear - C Lb. induction (w_hash w) as [|e l IH]; cbn [filter]; [constructor|].
+        inversion C as [|? ? [H1 H2] C']; subst. destruct (N.ltb_spec (fst e) len); [|auto].
+        constructor; [lia|auto].
+      - eapply Forall_weaken; [|exact C]. cbv beta. intros; lia. }
+    destruct (len <? 49152); cbn [w_buf w_shim w_static w_tree w_hash]; auto. }
+  unfold truncate. fold b.
+  destruct (t_stream c) eqn:St.
+  - destruct (SI St) as [Hs Hl].
+    destruct (N.leb_spec (mlen b) shim_max) as [L|L]; [|unfold shim_max in L; lia].
+    destruct (TT (set_shim (set_buf w b) (mlen b))) as (T1 & T2 & T3); try reflexivity.
+    eexists; split; [reflexivity|]. split; [exact T2|]. split; [exact T1|]. split; [|congruence].
+    intros _. rewrite T2, T3. unfold set_shim; cbn [w_shim]. split; [reflexivity|lia].
+  - destruct (TT (set_buf w b)) as (T1 & T2 & T3); try reflexivity.
+    eexists; split; [reflexivity|]. split; [exact T2|]. split; [exact T1|]. split; [intros E; congruence|].
+    intros _. rewrite T3. reflexivity.
+Qed.
+
+(* builder invariant (without the reading part) *)
+Definition BW (c : tcfg) (s : bstate) : Prop :=
+  TBound (b_w s) /\ SInv c (b_w s) /\ 12 <= mlen (w_buf (b_w s)) /\
+  b_sec s <= 3 /\ 12 <= b_s1 s /\ 12 <= b_s2 s /\ 12 <= b_s3 s.
+
+Lemma bstate_eta s : set_w s (b_w s) = s.
+Proof. destruct s; reflexivity. Qed.
+
+Lemma fail_push_back c s w e :
+  BW c s -> Ext c (mlen (w_buf (b_w s))) (b_w s) w ->
+  fail_push c s (mlen (w_buf (b_w s))) w e = (s, RErr e).
+Proof.
+  intros (TB & SI & _) E. unfold fail_push. rewrite (truncate_back c (b_w s) w); auto.
+  rewrite bstate_eta. reflexivity.
+Qed.
+
+Lemma mb_push_cases c s f :
+  BW c s -> WSpec c f ->
+  (exists w', f (b_w s) = WOk w' /\ mb_push c s f = (set_count (set_w s w') (count_of s + 1), ROk) /\
+              Ext c (mlen (w_buf (b_w s))) (b_w s) w' /\ TBound w' /\ SInv c w' /\
+              limit_hit (mlen (w_buf w')) (b_limit s) = false /\ count_of s < count_max) \/
+  (exists e, mb_push c s f = (s, RErr e)) \/
+  (exists x, mb_push c s f = (s, x) /\ is_dead x = true).
+Proof.
+  intros HB Hf. destruct HB as (TB & SI & R). assert (HB : BW c s) by (split; [|split]; auto).
+  specialize (Hf (b_w s) TB SI). unfold mb_push.
+  destruct (f (b_w s)) as [w|w| |].
+  - destruct Hf as (E & TB' & SI').
+    destruct (limit_hit _ _) eqn:LH; [right; left; eexists; apply fail_push_back; auto|].
+    destruct (N.leb_spec count_max (count_of s)) as [L|L]; [right; left; eexists; apply fail_push_back; auto|].
+    left. exists w. split; [reflexivity|]. split; [reflexivity|]. split; [exact E|]. split; [exact TB'|]. split; [exact SI'|]. split; [exact LH|exact L].
+  - right; left. eexists. apply fail_push_back; auto.
+  - right; right. eexists; split; reflexivity.
+  - right; right. eexists; split; reflexivity.
+Qed.
+
+Lemma BW_set_count c s v : BW c s -> BW c (set_count s v).
+Proof.
+  unfold BW, set_count. intros H.
+  destruct (b_sec s =? 0) eqn:E0; [cbn; rewrite ?E0; exact H|].
+  destruct (b_sec s =? 1) eqn:E1; [cbn; exact H|].
+  destruct (b_sec s =? 2) eqn:E2; cbn; exact H.
+Qed.
+
+Lemma rewind_inv c s : BW c s ->
+  exists w, truncate c (start_of s) (b_w s) = WOk w /\ rewind c s = Ok (set_count (set_w s w) 0) /\
+            BW c (set_count (set_w s w) 0) /\
+            w_buf w = firstn (N.to_nat (start_of s)) (w_buf (b_w s)).
+Proof.
+  intros (TB & SI & L & Hsec & H1 & H2 & H3).
+  destruct (truncate_inv c (start_of s) (b_w s) TB SI) as (w & ET & Eb & TB' & SI' & _).
+  exists w. split; [exact ET|]. unfold rewind. rewrite ET. split; [reflexivity|]. split; [|exact Eb].
+  apply BW_set_count. unfold BW, set_w; cbn [b_w b_sec b_s1 b_s2 b_s3].
+  split; [exact TB'|]. split; [exact SI'|]. split; [|repeat split; assumption].
+  rewrite Eb. unfold mlen in *. rewrite firstn_length.
+  assert (12 <= start_of s).
+  { unfold start_of, header_len. destruct (b_sec s =? 0); [lia|]. destruct (b_sec s =? 1); [lia|].
+    destruct (b_sec s =? 2); lia. }
+  lia.
+Qed.
+
+(* a failed push leaves the whole builder state as it was *)
+Lemma step_err_unchanged c s o s' e :
+  BW c s -> step c s o = (s', RErr e) -> s' = s.
+Proof.
+  intros HB H. destruct o as [q|r|udp opts| | | |l]; cbn [step] in H.
+  - destruct (b_sec s =? 0); [|discriminate].
+    destruct (mb_push_cases c s (compose_question c q) HB (compose_question_spec c q)) as [(w' & _ & E & _)|[(e' & E)|(x & E & D)]];
+      rewrite E in H; try discriminate; injection H as <- _; reflexivity || (rewrite <- H in D; discriminate).
+  - destruct (b_sec s =? 0); [discriminate|].
+    destruct (mb_push_cases c s (compose_record c r) HB (compose_record_spec c r)) as [(w' & _ & E & _)|[(e' & E)|(x & E & D)]];
+      rewrite E in H; try discriminate; injection H as <- _; reflexivity || (rewrite <- H in D; discriminate).
+  - destruct (b_sec s =? 3); [|discriminate].
+    destruct (mb_push_cases c s (compose_opt c udp opts) HB (compose_opt_spec c udp opts)) as [(w' & _ & E & _)|[(e' & E)|(x & E & D)]];
+      rewrite E in H; try discriminate; injection H as <- _; reflexivity || (rewrite <- H in D; discriminate).
+  - destruct (b_sec s <? 3); discriminate.
+  - destruct (b_sec s =? 0); [discriminate|]. destruct (rewind c s); discriminate.
+  - destruct (rewind c s); discriminate.
+  - discriminate.
+Qed.
